@@ -413,7 +413,7 @@ def run(ctx):
 
     for i in range(n_ops):
         with t.frame("op"):
-            k = t.weighted([4, 3, 4, 1, 2, 1], "op") if model else 0
+            k = t.weighted([4, 3, 4, 1, 2, 1, 1], "op") if model else 0
             if k == 0:
                 x = new_point(i)
                 key = key_of(x)
@@ -473,6 +473,24 @@ def run(ctx):
                 export(f, append)
                 exported[f] = True
                 compare(f, "export")
+            elif k == 6:
+                # the history of another run, kept in another file, is merged into this database (update_from_hdf):
+                # the merged points are new for the file of this history
+                if problem is not None:
+                    continue
+                x = new_point(i)
+                key = key_of(x)
+                if key in model:
+                    continue
+                outs = {n: gen_value(t, f"v{i}.{n}") for n in NAMES[: t.randint(1, 2, "n_merged_outputs")]}
+                other_db = Database(input_space=ds)
+                other_db.store(x, dict(outs))
+                other_path = str(hist_dir / f"merged_{i}.h5")
+                other_db.to_hdf(other_path, hdf_node_path=node)
+                db.update_from_hdf(other_path, hdf_node_path=node)
+                model[key] = dict(outs)
+                ops.append(("merge_other_file", x.tolist(), {n: canon_value(v) for n, v in outs.items()}))
+                ctx.probe("history_of_another_file_merged")
             elif k == 4:
                 done = [f for f in files if exported[f] is True]
                 if not done:
